@@ -207,7 +207,6 @@ func (x *Exec) loopHeader(fr *Frame, li *loopInfo, st *State, reach string) {
 	}
 	// 2. havoc loop targets
 	writes := x.eng.eff.loopWrites(fr.fn, li)
-	pre := st.clone()
 	var names []string
 	for n := range writes {
 		names = append(names, n)
@@ -239,7 +238,16 @@ func (x *Exec) loopHeader(fr *Frame, li *loopInfo, st *State, reach string) {
 		}
 		fr.vals[phi] = nv
 	}
-	_ = pre
+	// automatic frame invariant: what the function's modifies clause forbids to change stays unchanged
+	// across iterations (checked on every back edge as inv.preserve/autoframe)
+	if x.hasMods && fr.top {
+		for _, n := range names {
+			if f := x.frameFormula(n, st.heap[n], fr.entry); f != "" {
+				x.assume(reach, f)
+			}
+		}
+		li.frameHeaps = names
+	}
 	// 3. assume invariant for an arbitrary iteration
 	c2 := x.newCtx(st, fr.entry, fr.con.Pkg, reach, fr)
 	x.loopEnv(fr, li, c2, func(p *ssa.Phi) Val { return fr.vals[p] })
@@ -278,6 +286,17 @@ func (x *Exec) loopBackEdge(fr *Frame, li *loopInfo, from *ssa.BasicBlock, cond 
 		}
 		x.oblige(fmt.Sprintf("%s/inv.preserve/loop%d.%s", funcKey(x.fn), li.ordinal, lbl), "inv.preserve", cond, f, cl, "loop invariant preserved: "+cl.Text)
 	}
+	if x.hasMods && fr.top {
+		for _, n := range li.frameHeaps {
+			cur, ok := st.heap[n]
+			if !ok {
+				continue
+			}
+			if f := x.frameFormula(n, cur, fr.entry); f != "" {
+				x.oblige(fmt.Sprintf("%s/inv.preserve/loop%d.autoframe.%s", funcKey(x.fn), li.ordinal, n), "inv.preserve", cond, f, nil, "automatic frame invariant: only locations listed in modifies change in "+n)
+			}
+		}
+	}
 	for k, cl := range dec {
 		if k >= len(li.varTerm) {
 			continue
@@ -301,6 +320,7 @@ type FuncResult struct {
 	Fatals   []string
 	Assumed  []string
 	Trusted  []string
+	Skipped  []string
 	Exec     *Exec
 }
 
@@ -380,6 +400,13 @@ func (e *Engine) verifyFunction(key string) (*FuncResult, error) {
 		}
 		x.assume("true", f)
 	}
+	// frame description from the modifies clauses (evaluated in the entry state)
+	if mods, has, err := x.modTargets(c, con); err != nil {
+		x.fatal("%v", err)
+	} else if has {
+		x.topMods = mods
+		x.hasMods = true
+	}
 	// vacuity: the precondition must be satisfiable
 	x.obls = append(x.obls, &Obl{Name: key + "/vacuity/requires", Kind: "vacuity", Fn: key, Formula: "false", Prefix: len(x.items), Text: "preconditions are satisfiable (expected: sat)", x: x})
 	entry := st.clone()
@@ -422,7 +449,19 @@ func (e *Engine) verifyFunction(key string) (*FuncResult, error) {
 	if len(body.rets) == 0 {
 		x.warn("function has no reachable return")
 	}
-	res.Obls = x.obls
+	for _, o := range x.obls {
+		skipped := false
+		for _, sk := range con.Skips {
+			if strings.Contains(o.Name, sk.Pattern) || strings.Contains(o.Text, sk.Pattern) {
+				res.Skipped = append(res.Skipped, fmt.Sprintf("%s (%s): not claimed because %s", o.Name, o.Text, sk.Reason))
+				skipped = true
+				break
+			}
+		}
+		if !skipped {
+			res.Obls = append(res.Obls, o)
+		}
+	}
 	res.Warnings = x.warnings
 	res.Fatals = x.fatals
 	for k := range x.assumed {
@@ -447,6 +486,8 @@ func (x *Exec) frameObligations(fr *Frame, r retRec, ri int, entry *State, con *
 	if !has {
 		return // no modifies clause: callers use the inferred effects, which over-approximate by construction
 	}
+	x.topMods = mods
+	x.hasMods = true
 	whole := map[string]bool{}
 	byHeap := map[string][]string{}
 	everything, nonghost := false, false
@@ -461,6 +502,7 @@ func (x *Exec) frameObligations(fr *Frame, r retRec, ri int, entry *State, con *
 		default:
 			byHeap[m.heap] = append(byHeap[m.heap], m.ref)
 		}
+		_ = byHeap
 	}
 	if everything {
 		return
@@ -484,7 +526,6 @@ func (x *Exec) frameObligations(fr *Frame, r retRec, ri int, entry *State, con *
 			continue
 		}
 		final := r.st.heap[n]
-		srt := x.eng.heapSorts[n]
 		init := n + "!0"
 		if final == init || whole[n] {
 			continue
@@ -493,20 +534,9 @@ func (x *Exec) frameObligations(fr *Frame, r retRec, ri int, entry *State, con *
 			x.oblige(fmt.Sprintf("%s/frame/%s@ret%d", funcKey(x.fn), n, ri), "frame", r.guard, "false", nil, "heap "+n+" is havoced by the body but not listed in modifies")
 			continue
 		}
-		x.declare(init, srt)
-		var f string
-		if !strings.HasPrefix(srt, "(Array Int") {
-			f = sx("=", final, init)
-		} else {
-			var exc []string
-			for _, ref := range byHeap[n] {
-				exc = append(exc, sx("=", "p$f", ref))
-			}
-			cond := sx("and", sx("<=", "p$f", entry.alc), not(or(exc...)))
-			if strings.HasPrefix(n, "E$") || strings.HasPrefix(n, "M$") {
-				cond = sx("and", sx("<=", "p$f", entry.alc), sx(">=", "p$f", "0"), not(or(exc...)))
-			}
-			f = fmt.Sprintf("(forall ((p$f Int)) (=> %s (= (select %s p$f) (select %s p$f))))", cond, final, init)
+		f := x.frameFormula(n, final, entry)
+		if f == "" {
+			continue
 		}
 		x.oblige(fmt.Sprintf("%s/frame/%s@ret%d", funcKey(x.fn), n, ri), "frame", r.guard, f, nil, "only locations listed in modifies change in "+n)
 	}
@@ -528,4 +558,60 @@ func ancestors(fn *ssa.Function) map[int]map[int]bool {
 		out[b.Index] = s
 	}
 	return out
+}
+
+// frameFormula: "heap n (current version cur) differs from its initial version only at locations the
+// modifies clause lists, or at objects allocated after entry". "" if unconstrained (whole-heap modifies).
+func (x *Exec) frameFormula(n, cur string, entry *State) string {
+	if n == "*" || strings.HasPrefix(n, "IT$") || strings.HasPrefix(n, "A$"+sanitize(funcKey(x.fn))+"$") {
+		return ""
+	}
+	if strings.HasPrefix(cur, "?") {
+		return ""
+	}
+	var exc []string
+	for _, m := range x.topMods {
+		if m.heap == "*" {
+			return ""
+		}
+		if m.heap == "*nonghost" && !isGhostHeap(n, x.eng) {
+			return ""
+		}
+		if m.heap != n {
+			continue
+		}
+		if m.whole {
+			return ""
+		}
+		exc = append(exc, sx("=", "p$f", m.ref))
+	}
+	srt, ok := x.eng.heapSorts[n]
+	if !ok {
+		return ""
+	}
+	init := n + "!0"
+	x.declare(init, srt)
+	if cur == init {
+		return ""
+	}
+	if !strings.HasPrefix(srt, "(Array Int") {
+		return sx("=", cur, init)
+	}
+	cond := sx("and", sx("<=", "p$f", entry.alc), not(or(exc...)))
+	if strings.HasPrefix(n, "E$") || strings.HasPrefix(n, "M$") {
+		cond = sx("and", sx("<=", "p$f", entry.alc), sx(">=", "p$f", "0"), not(or(exc...)))
+	} else {
+		x.declRoot()
+		cond = sx("and", sx("<=", sx("root", "p$f"), entry.alc), not(or(exc...)))
+	}
+	return fmt.Sprintf("(forall ((p$f Int)) (! (=> %s (= (select %s p$f) (select %s p$f))) :pattern ((select %s p$f))))", cond, cur, init, cur)
+}
+
+// root(p): the allocated object an address belongs to (p itself for plain references)
+func (x *Exec) declRoot() {
+	if x.declared["root"] {
+		return
+	}
+	x.declareFun("root", "(Int) Int")
+	x.emitGlobal("(assert (forall ((p Int)) (! (=> (>= p 0) (= (root p) p)) :pattern ((root p)))))")
 }
